@@ -2,6 +2,8 @@
 // fdatasync covering every waiter").  Extracted from sst/src/log.rs: WriteBatch::merge, WriteCoalescingCore::{can_batch,
 // batch, work} and FsyncCoalescingCore::{can_batch, batch, work} -- the three callbacks the coalescing queue
 // (sync42::WorkCoalescingQueue, schedule-level, not covered) drives.  Proved, for any batches and any watermarks:
+//   * WriteBatch::put / del (verbatim): within the key / value / block limits exactly one entry's bytes are appended and
+//     exactly that entry is folded into the batch's setsum; otherwise Err and the buffer is unchanged;
 //   * merging concatenates the batches' bytes in order; the `.expect("can_batch should ensure this is impossible")` in batch
 //     cannot fire once can_batch has answered true for the same pair;
 //   * one work() call appends the merged batch to the log builder exactly once and whole, flushes, and hands every one of
